@@ -185,15 +185,28 @@ def run(idx, rep, tier):
             shp = norm_idx(nospace(shp_node)) if shp_node is not None else "?"
             upd = next((c for c in df.calls(m.node) if df.is_xnp_call(c) == "update_array"), None)
             upd_idx = ",".join(ctext(a_, roles) for a_ in upd.args[2:]) if upd is not None else "?"
-            ok = unpack and shp == norm_idx(buf_shape.format(x=x)) and upd_idx == scatter and parent_prod in src and gather in src
-            rep.decide(ok, "slice-buffers", f"Sliced.{m.name}", f"buffer {shp}, scatter by [{upd_idx}], product `{parent_prod if parent_prod in src else '?'}`, gather `{gather if gather in src else '?'}`" +
-                       ("" if ok else f"; required buffer {buf_shape.format(x=x)}, scatter [{scatter}], {parent_prod}, {gather}"), detail="" if ok else "buffers", locs=[idx.loc(m.module, m.node)])
+            # exits: gather(<product of the parent with the scattered buffer>), the product bound to a name first or written inline
+            gather_idx = gather[len("output"):]  # "[start_slices]" / "[...,end_slices]"
+
+            def exit_shape(r):
+                """(product text, gather text) of `return <P>[<idx>]` in role names, P resolved through a single-binding local"""
+                v = r.value
+                if not isinstance(v, ast.Subscript):
+                    return None, None
+                prod_e = df.resolve_value(m.node, v.value)
+                return ctext(prod_e, roles), "[" + ctext(v.slice, roles) + "]"
+
+            exits = [(r, *exit_shape(r)) for r in df.returns(m.node) if r.value is not None]
+            good = [e for e in exits if e[1] == parent_prod and e[2].replace("(", "").replace(")", "") == gather_idx]
+            ok = unpack and shp == norm_idx(buf_shape.format(x=x)) and upd_idx == scatter and bool(good)
+            rep.decide(ok, "slice-buffers", f"Sliced.{m.name}", f"buffer {shp}, scatter by [{upd_idx}], exits {[(e[1], e[2]) for e in exits]}" +
+                       ("" if ok else f"; required buffer {buf_shape.format(x=x)}, scatter [{scatter}], an exit {parent_prod}{gather_idx}"), detail="" if ok else "buffers", locs=[idx.loc(m.module, m.node)])
             # every exit must go through the scatter / gather pair: a return that multiplies the parent by the raw operand
             # ignores the column (row) selection; equal sizes do not make the selection the identity (A[:, ::-1], A[:, [1, 0]])
-            for r in df.returns(m.node):
-                if r.value is None or ctext(r.value, roles) == gather:
+            for r, prod_t, gat_t in exits:
+                if (r, prod_t, gat_t) in good:
                     continue
-                guards = [p_ for p_ in parents(r, m.node) if isinstance(p_, ast.If)]
+                guards = [p_ for p_ in parents(getattr(r, "_origin", r), m.node) if isinstance(p_, ast.If)]
                 gtxt = " and ".join(nospace(g.test) for g in guards)
                 only_sizes = bool(guards) and all(isinstance(g.test, ast.Compare) and all(".shape" in nospace(x) or "len(" in nospace(x) for x in [g.test.left] + g.test.comparators) for g in guards)
                 uses_raw = x in df.names_in(r.value) and "self.A" in nospace(r.value)
